@@ -249,6 +249,7 @@ type tr struct {
 	closures map[types.Object]closureInfo
 	opt      bool
 	named    []string
+	fnBody   *ast.BlockStmt // body of the enclosing function (local closures: captured variables must never be reassigned)
 	err      error
 }
 
@@ -1083,6 +1084,15 @@ func (t *tr) stmts(ss []ast.Stmt, ret func() string) string {
 			}
 			return fmt.Sprintf("let %s := %s\n", tuple(names), val) + cont()
 		}
+		if fl, ok := s.Rhs[0].(*ast.FuncLit); ok {
+			id, isId := s.Lhs[0].(*ast.Ident)
+			if s.Tok != token.DEFINE || !isId {
+				t.fail(s, "function literal outside `name := func..`")
+				return "?"
+			}
+			t.localClosure(id, fl)
+			return cont()
+		}
 		name := t.lhsName(s.Lhs[0])
 		var val string
 		var lt ltype
@@ -1490,6 +1500,122 @@ func (t *tr) foreverLoop(s *ast.ForStmt) string {
 	return fmt.Sprintf("%s %s(%s) %s", name, as, fuel, tuple(svars))
 }
 
+// localClosure translates `name := func(..) .. { .. }` inside a plain function into a helper definition whose leading
+// parameters are the captured variables.  Go captures by reference: only variables that are never reassigned anywhere
+// in the enclosing function may be captured (then by-reference and by-value coincide).
+func (t *tr) localClosure(id *ast.Ident, fl *ast.FuncLit) {
+	if t.fnBody == nil {
+		t.fail(fl, "function literal here")
+		return
+	}
+	ct := &tr{g: t.g, p: t.p, spec: t.spec, group: t.group, structs: t.structs, locals: map[string]*types.Struct{},
+		abs: map[types.Object]*absParam{}, closures: t.closures, fnBody: nil}
+	ct.spec.lean = t.spec.lean + "_" + id.Name
+	if panics, forever := ct.scanShape(fl.Body); panics || forever {
+		t.fail(fl, "closure with panic / unbounded loop")
+		return
+	}
+	// captured variables
+	captured := map[string]ltype{}
+	capObj := map[types.Object]bool{}
+	ast.Inspect(fl.Body, func(n ast.Node) bool {
+		x, ok := n.(*ast.Ident)
+		if !ok {
+			return true
+		}
+		obj, ok := t.p.info.Uses[x].(*types.Var)
+		if !ok || obj.IsField() || obj.Parent() == t.p.pkg.Scope() {
+			return true
+		}
+		if obj.Pos() >= fl.Pos() && obj.Pos() < fl.End() {
+			return true
+		}
+		if t.abs[obj] != nil {
+			t.fail(x, "closure reads the abstract parameter %s", x.Name)
+			return true
+		}
+		if _, isLocal := t.locals[x.Name]; isLocal {
+			t.fail(x, "closure reads the local struct %s", x.Name)
+			return true
+		}
+		if _, isClosure := t.closures[obj]; isClosure {
+			return true
+		}
+		lt := t.ltypeOf(obj.Type())
+		if lt.c == tBad || lt.c == tTuple {
+			t.fail(x, "captured variable %s of type %s", x.Name, obj.Type())
+			return true
+		}
+		captured[safe(x.Name)] = lt
+		capObj[obj] = true
+		return true
+	})
+	ast.Inspect(t.fnBody, func(n ast.Node) bool {
+		var targets []ast.Expr
+		switch n := n.(type) {
+		case *ast.AssignStmt:
+			if n.Tok != token.DEFINE {
+				targets = n.Lhs
+			}
+		case *ast.IncDecStmt:
+			targets = []ast.Expr{n.X}
+		}
+		for _, l := range targets {
+			if root, _ := selPath(l); root != nil && capObj[t.p.info.Uses[root]] {
+				t.fail(l, "variable %s is captured by a closure and reassigned", root.Name)
+			}
+		}
+		return true
+	})
+	if t.err != nil {
+		return
+	}
+	ps, rt, pre := ct.signature(nil, fl.Type)
+	seen := map[string]types.Object{}
+	if ct.err == nil {
+		ct.checkNames(fl, seen)
+	}
+	for name := range seen {
+		if _, clash := captured[safe(name)]; clash {
+			ct.fail(fl, "closure variable %s has the name of a captured variable", name)
+		}
+	}
+	body := ""
+	if ct.err == nil {
+		body = pre + ct.stmts(fl.Body.List, func() string {
+			ct.fail(fl, "control reaches the end of the closure without return")
+			return "?"
+		})
+	}
+	for _, sp := range ps {
+		if sp.abstract {
+			ct.fail(fl, "abstract closure parameter")
+		}
+	}
+	if ct.err != nil {
+		t.err = ct.err
+		return
+	}
+	for _, n := range ct.sorder {
+		t.sorder = append(t.sorder, n)
+	}
+	var capParams, capArgs []string
+	for _, k := range sortedKeys(captured) {
+		capParams = append(capParams, fmt.Sprintf("(%s : %s)", k, captured[k].lean()))
+		capArgs = append(capArgs, k)
+	}
+	own, _ := ct.paramList(ps)
+	lean := t.spec.lean + "_" + id.Name
+	h := ""
+	for _, hh := range ct.helpers {
+		h += hh + "\n"
+	}
+	sig := strings.TrimSpace(strings.Join(capParams, " ") + " " + own)
+	h += fmt.Sprintf("def %s %s : %s :=\n%s\n", lean, sig, rt.lean(), indent(body))
+	t.helpers = append(t.helpers, h)
+	t.closures[t.p.info.Defs[id]] = closureInfo{lean: lean, outer: capArgs}
+}
+
 func findFunc(p *pkgInfo, spec fnSpec) *ast.FuncDecl {
 	f := p.files[spec.file]
 	if f == nil {
@@ -1687,6 +1813,7 @@ func resultType(rt ltype, opt bool) string {
 func (g *generator) function(p *pkgInfo, spec fnSpec, group int, fd *ast.FuncDecl) (string, *tr) {
 	t := &tr{g: g, p: p, spec: spec, group: group, structs: map[string]*types.Struct{}, locals: map[string]*types.Struct{},
 		abs: map[types.Object]*absParam{}, closures: map[types.Object]closureInfo{}}
+	t.fnBody = fd.Body
 	panics, forever := t.scanShape(fd.Body)
 	if panics && forever {
 		t.fail(fd, "panic and unbounded loop in one function")
@@ -1805,6 +1932,7 @@ func (g *generator) closureTable(p *pkgInfo, spec fnSpec, group int, fd *ast.Fun
 				return "", t
 			}
 		}
+		t.sorder = append(t.sorder, ct.sorder...)
 		own, _ := ct.paramList(ps)
 		lean := spec.lean + "_" + id.Name
 		cpos := p.fset.Position(fl.Pos())
